@@ -41,7 +41,8 @@ def r06_1_3(ctx: Ctx):
     K.check_insert_first(ctx, 'R06.2', sd.methods['InsertFirstDataItem'], leftF, rightF, listF)
 
 
-def r06_4(ctx: Ctx):
+def r06_4(ctx: Ctx, timing: bool = True):
+    """timing=False: the formulas only (C02 re-runs them; *when* a stored length is rewritten is C06's / C16's concern)."""
     rid = 'R06.4'
     ctx.rule(rid, 'lengths: stored delta = (x - x_left)^(1/N) for both new intervals (pre-relink left neighbour) '
                   'and for the seed intervals; N = numberOfFloatVariables')
@@ -79,7 +80,7 @@ def r06_4(ctx: Ctx):
                     ctx.check(okf, rid, s_.func.short, s_.loc(), f'delta of the {name} = (x_r - x_l)^(1/N)',
                               f'delta of the {name} is {C.fmt(val)}; expected {C.fmt(exp)}',
                               key=ctx.key_for(rid, s_.func, s_.node))
-                    if tgt is old:
+                    if tgt is old and timing:
                         ctx.fail('R06.9', s_.func.short, s_.loc(),
                                  f'the length of a stored interval ({s_.d["tdesc"]}) is rewritten by the selection '
                                  f'routine, before the new trial is evaluated and inserted: if the evaluation fails '
@@ -99,7 +100,8 @@ def r06_4(ctx: Ctx):
             ctx.check(ok2, rid, rn.short, rn.loc(sts[-1].node), f'delta of the {name} uses the pre-relink neighbours',
                       f'delta of the {name} is computed after the item is linked in (old.GetLeft() is then the new '
                       f'item itself)', key=f'{rid}::{rn.short}::after-relink::{name}')
-    ctx.rule('R06.9', 'stored items are rewritten only after the evaluation of the iteration succeeded')
+    if timing:
+        ctx.rule('R06.9', 'stored items are rewritten only after the evaluation of the iteration succeeded')
     ctx.floor(rid, 'delta stores of the iteration', n, 2)
     # seeding routine: middle.delta = (1/2 - 0)^(1/N), right.delta = (1 - 1/2)^(1/N)
     selfs = var(sdr.param_names[0])
